@@ -144,7 +144,7 @@ def parse_log(text):
     r["stubs"] = re.findall(r"- Stub: (.*)", text)
     r["build_error"] = bool(re.search(r"^error(\[E\d+\])?:", text, re.M)) and r["verdict"] is None
     r["oom"] = ("std::bad_alloc" in text or "Out of memory" in text or "memory exhausted" in text
-                or "ran out of memory" in text or "Solver ran out" in text)
+                or "ran out of memory" in text or "run out of memory" in text or "Solver ran out" in text)
     r["unsupported"] = [c for c in r["checks"] if "unsupported" in c["desc"].lower() or
                         "is not currently supported" in c["desc"]]
     return r
